@@ -588,6 +588,24 @@ func ownValues(tier string, rnd *rand.Rand) []starlark.Value {
 		vs = append(vs, starlark.String(strings.Repeat("x", n)), starlark.Bytes(strings.Repeat("\x80", n)))
 	}
 	vs = append(vs, starlark.String("héllo, 世界"), starlark.String("a\x00b"), starlark.Bytes("\x00\xff"), starlark.String("\xff\xfe"))
+	// equal text under different types, and the same text many times
+	for _, txt := range []string{"", "a", "abc", "abcd", "a longer piece of text", strings.Repeat("z", 300)} {
+		s, b := starlark.String(txt), starlark.Bytes(txt)
+		vs = append(vs, starlark.Tuple{s, b}, starlark.Tuple{b, s}, starlark.NewList([]starlark.Value{s, b, s, b, s}),
+			starlark.Tuple{s, starlark.Tuple{b, s}, starlark.NewList([]starlark.Value{b})})
+		d := starlark.NewDict(2)
+		d.SetKey(b, starlark.MakeInt(1))
+		d.SetKey(s, starlark.MakeInt(2))
+		vs = append(vs, d, starlark.Tuple{d, s, b})
+		if n, err := strconv.Atoi("7"); err == nil {
+			vs = append(vs, starlark.Tuple{starlark.String("7"), starlark.MakeInt(n), starlark.Bytes("7"), starlark.Float(7)})
+		}
+		set := starlark.NewSet(2)
+		set.Insert(s)
+		set.Insert(b)
+		vs = append(vs, set)
+		vs = append(vs, &hObj{mod: txt, name: txt, args: starlark.Tuple{s, b}}, &hObj{mod: "m", name: "n", args: starlark.Tuple{starlark.String("m"), starlark.Bytes("n"), starlark.String("n")}})
+	}
 	sizes := []int{0, 1, 2, 3, 4, 5, 999, 1000, 1001, 2000, 2001}
 	if tier == "thorough" {
 		sizes = append(sizes, 3001, 5000)
